@@ -157,7 +157,7 @@ func (s *Seq) opBatch(op *Op) {
 		}
 		s.checkUUIDAfterWrite(b.rec, b.lid)
 		b.exp.Initialize(b.rec.UUID())
-		s.M.Put(b.lid, b.exp)
+		s.modelPut(b.lid, b.exp)
 		touched = append(touched, b.lid)
 	}
 	var exps []*shapes.Rec
